@@ -29,12 +29,11 @@ impl Code {
         self.exec_unscoped(&mut interpreter)
     }
     pub fn exec_unscoped(&self, interpreter: &mut Interpreter) -> Result<Variable, ExecError> {
+        // stop at the first statement that fails
         match self
             .instructions
             .iter()
-            .map(|instruction| instruction.exec(interpreter))
-            .last()
-            .unwrap_or(Ok(Variable::Void))
+            .try_fold(Variable::Void, |_, instruction| instruction.exec(interpreter))
         {
             Ok(var) => Ok(var),
             Err(ExecStop::Error(err)) => Err(err),
